@@ -1056,3 +1056,20 @@ Print Assumptions parse_range_err_iff.
 Print Assumptions range_eq_expr_sem.
 Print Assumptions range_assign_sem.
 Print Assumptions wf_deep_val.
+
+(* ---- the range container's operand decoding for a holder configured with EnableFloat2Int = false ---- *)
+(* a float operand of > or < is refused (not truncated) ... *)
+Lemma parse_range_nf_float_refused : forall op b f, op = OpGT \/ op = OpLT -> parse_range op false (VFloat b f) = PErr.
+Proof. intros op b f [H|H]; subst op; destruct b; reflexivity. Qed.
+(* ... integer operands are read as with the conversion on, and between pairs do not depend on the option *)
+Lemma parse_range_nf_int_same : forall op k z, parse_range op false (VInt k z) = parse_range op true (VInt k z).
+Proof. intros op k z; destruct op; try reflexivity; destruct k; reflexivity. Qed.
+Lemma parse_range_nf_between_same : forall v, parse_range OpBetween false v = parse_range OpBetween true v.
+Proof. reflexivity. Qed.
+Lemma parse_range_nf_spec :
+  (forall op b f, op = OpGT \/ op = OpLT -> parse_range op false (VFloat b f) = PErr) /\
+  (forall op k z, parse_range op false (VInt k z) = parse_range op true (VInt k z)) /\
+  (forall v, parse_range OpBetween false v = parse_range OpBetween true v).
+Proof.
+  split; [exact parse_range_nf_float_refused | split; [exact parse_range_nf_int_same | exact parse_range_nf_between_same]].
+Qed.
